@@ -5,8 +5,9 @@
     depth-first search meets them.  It lists exactly the matching entries
     ([enum_perm], [enum_caps]), in strictly increasing specificity order
     ([enum_sorted]), and the search is the scan of that list ([lookup_scan]).
-    Hence [find_in false = spec_lookup] ([find_is_spec]); the code as it is
-    ([find_in true]) agrees outside the guards of C02-F1 / C02-F2 ([faithful_eq]). *)
+    Hence [find_in false = spec_lookup] ([find_is_spec]: the code as it is now, since fix
+    e897fef); the pinned code before that fix ([find_in true]) agrees outside the guard of
+    C02-F1 for capture-independent conditions (Radix/LoadProofs.v [lookup_faithful_eq]). *)
 From HV Require Import Base.Prelude Radix.Spec Radix.SpecProofs Radix.Machine.
 From Coq Require Import Permutation Sorted.
 
@@ -347,7 +348,7 @@ Proof.
   rewrite <- Hy. apply in_map. assumption.
 Qed.
 
-(** the repaired search is the specification *)
+(** the search as it is now ([find_in false], since fix e897fef) is the specification *)
 Theorem find_is_spec (d : db) path : NoDup (map fst d) -> nonempty_db d ->
   find_in false d path m = spec_lookup d path m.
 Proof.
